@@ -103,6 +103,8 @@ NOut(k) == IF k = "SPLIT" THEN 2 ELSE 1
 SameIn(k) == k \in {"SAMEIN0", "SAMEIN1", "SAMEIN3", "SPLIT"}
 Fixed(k) == k \in {"FIXSL", "FIXT"}
 FixClass(k) == IF k = "FIXSL" THEN "SL" ELSE "T"
+\* the 16-bit fixed parameters of softmax/logistic and tanh coincide (scale 2^-15, zero point 0, symmetric)
+FixClassA(k, a) == IF a = "a16" THEN "X" ELSE FixClass(k)
 KindModes(k) == KM[k]
 IsSRQ(m) == m.m = "SRQ"
 Bits(a) == IF a = "a16" THEN 16 ELSE 8
@@ -232,27 +234,30 @@ RECURSIVE ModeChoices(_)
 ModeChoices(s) == IF s > NSub THEN {<<>>}
                   ELSE {<<ms>> \o rest : ms \in ModeChoicesSub(s, 1), rest \in ModeChoices(s+1)}
 
+\* the state in which quantize() starts on a sealed scenario (G1: graphs with outputs, mc: modes)
+Sealed(G1, mc, im, om) ==
+  /\ G' = G1
+  /\ mode' = mc /\ inmode' = im /\ outmode' = om
+  /\ qsv' = [s \in 1..Len(G1) |-> [t \in 1..Len(G1[s].trole) |-> <<"cal", s, t-1>>]]
+  /\ prod' = [s \in 1..Len(G1) |-> [t \in 1..Len(G1[s].trole) |-> NoEntry]]
+  /\ cons' = [s \in 1..Len(G1) |-> [t \in 1..Len(G1[s].trole) |-> <<>>]]
+  /\ R' = [s \in 1..Len(G1) |->
+             [ops |-> [i \in 1..Len(G1[s].ops) |-> [ins |-> G1[s].ops[i].ins, outs |-> G1[s].ops[i].outs, orig |-> i-1, qk |-> "-"]],
+              outs |-> G1[s].gouts,
+              sigout |-> G1[s].gouts,
+              dt |-> [t \in 1..Len(G1[s].trole) |-> IF G1[s].trole[t] = "aux" THEN "i32" ELSE "f32"],
+              par |-> [t \in 1..Len(G1[s].trole) |-> NoPar],
+              nm |-> [t \in 1..Len(G1[s].trole) |-> <<t-1>>],
+              shp |-> G1[s].tsh,
+              ntens |-> Len(G1[s].trole),
+              omap |-> [i \in 1..Len(G1[s].ops) |-> i-1],
+              amap |-> <<>>]]
+  /\ order' = <<>> /\ bufw' = <<>> /\ qi' = 0 /\ insts' = <<>> /\ pc' = "mat" /\ why' = "none"
+
 Seal ==
   /\ pc = "build" /\ NOpsOf(CurS) >= 1 /\ \A s \in 1..NSub : InputsUsed(s)
   /\ \E oc \in OutChoices(1) : \E mc \in ModeChoices(1) : \E im \in IOModes : \E om \in IOModes :
-       LET G1 == [s \in 1..NSub |-> [G[s] EXCEPT !.gouts = oc[s]]] IN
-       /\ G' = G1
-       /\ mode' = mc /\ inmode' = im /\ outmode' = om
-       /\ qsv' = [s \in 1..NSub |-> [t \in 1..NT0(s) |-> <<"cal", s, t-1>>]]
-       /\ prod' = [s \in 1..NSub |-> [t \in 1..NT0(s) |-> NoEntry]]
-       /\ cons' = [s \in 1..NSub |-> [t \in 1..NT0(s) |-> <<>>]]
-       /\ R' = [s \in 1..NSub |->
-                  [ops |-> [i \in 1..NOpsOf(s) |-> [ins |-> G[s].ops[i].ins, outs |-> G[s].ops[i].outs, orig |-> i-1, qk |-> "-"]],
-                   outs |-> oc[s],
-                   sigout |-> oc[s],
-                   dt |-> [t \in 1..NT0(s) |-> IF Role(s, t-1) = "aux" THEN "i32" ELSE "f32"],
-                   par |-> [t \in 1..NT0(s) |-> NoPar],
-                   nm |-> [t \in 1..NT0(s) |-> <<t-1>>],
-                   shp |-> G[s].tsh,
-                   ntens |-> NT0(s),
-                   omap |-> [i \in 1..NOpsOf(s) |-> i-1],
-                   amap |-> <<>>]]
-  /\ order' = <<>> /\ bufw' = <<>> /\ qi' = 0 /\ insts' = <<>> /\ pc' = "mat" /\ why' = "none"
+       Sealed([s \in 1..NSub |-> [G[s] EXCEPT !.gouts = oc[s]]], mc, im, om)
   /\ UNCHANGED nbufg
 
 \* ------------------------------------------------------------------ materialiser
@@ -275,7 +280,7 @@ MatOp(s, i, q) ==
       actPos == CHOOSE j \in 1..Len(sig) : sig[j] \in {"act", "x"}      \* first activation-like operand
       wPos == IF \E j \in 1..Len(sig) : sig[j] = "w" THEN CHOOSE j \in 1..Len(sig) : sig[j] = "w" ELSE 0
       outStatPar(t) == PTerm(stat(t), ac)
-      outPar == IF Fixed(k) THEN FixPar(FixClass(k), ac)
+      outPar == IF Fixed(k) THEN FixPar(FixClassA(k, ac), ac)
                 ELSE IF SameIn(k) THEN PTerm(stat(o.ins[actPos]), ac)
                 ELSE outStatPar(o.outs[1])
       inParSRQ(j) ==
@@ -347,7 +352,7 @@ Materialize ==
                             THEN LET a == o.ins[CHOOSE j \in 1..Len(Sig(o.kind)) : Sig(o.kind)[j] = "act"] IN
                                  [qsv EXCEPT ![s] = [t \in 1..Len(@) |-> IF (t-1) \in SeqRange(o.outs) THEN @[a+1] ELSE @[t]]]
                             ELSE IF IsSRQ(m) /\ Fixed(o.kind)
-                            THEN [qsv EXCEPT ![s][o.outs[1]+1] = <<"fix", FixClass(o.kind), m.a>>]
+                            THEN [qsv EXCEPT ![s][o.outs[1]+1] = <<"fix", FixClassA(o.kind, m.a), m.a>>]
                             ELSE qsv
              /\ qi' = qi + 1 /\ pc' = "mat"
   /\ IF pc' = "raised" THEN TRUE ELSE why' = why
